@@ -149,7 +149,12 @@ def check_function(I, target, build, spec, F, name, result_name="result", state_
         for kk in kwargs:
             if isinstance(kwargs[kk], (Obj, list)):
                 V.compare(kwargs[kk], skwargs[kk], Fp, "%s%s.%s" % (name, suffix, kk), out)
-    V.check_sides(log, F, name, out)
+    finals = []
+    for pc, (_k, payload) in results:
+        if payload[0] == "ok":
+            finals.append(payload[2])
+            finals.append(list(payload[1][0]) + list(payload[1][1].values()))
+    V.check_sides(log, F, name, out, final_values=finals)
     if merge_defs:
         out = V.merge_def(out, name)
     return out
